@@ -45,7 +45,7 @@ CHECKS = {
    "duplicate edges not flagged; batches outside the alphabet",
    "exhaustive enumeration of write histories of the real code with a structural invariant on the persisted state", "DESIGN.md §4 C10"),
  "C06": (True, "seqx-input", "model_checking",
-   "Exhaustive enumeration of all _and/_or query trees with 1-3 children and all two-level trees over a 7-leaf pool (graph vector, flat vector, two text, string, integer, _id) x 3 weight assignments on a fixed 8-point data set, both backends; result set, summed hybrid contributions and ranked-first/highest-first order are compared with a reference that evaluates the statement; on every 41st tree (thorough: every 5th) and every leaf, 11 select lists x 12 sort lists x 18 offset/limit pairs are checked (selected data exact, adjacent-pair sortedness with missing-last, page = contiguous slice of the full order).",
+   "Exhaustive enumeration of all _and/_or query trees with 1-3 children and all two-level trees over a 7-leaf pool (graph vector, flat vector, two text, string, integer, _id) x 3 weight assignments on a fixed 8-point data set, both backends; result set, summed hybrid contributions and ranked-first/highest-first order are compared with a reference that evaluates the statement; on every 41st tree (thorough: every 5th) and every leaf, 11 select lists x 17 sort lists (every direction pattern over two and three keys) x 18 offset/limit pairs are checked (selected data exact, adjacent-pair sortedness with missing-last, page = contiguous slice of the full order).",
    "one data set; sort keys must be selected; ambiguous references (ties at a leaf limit) are skipped",
    "bounded-exhaustive enumeration of query trees / select / sort / paging inputs vs reference evaluation", "DESIGN.md §4 C06"),
  "C08": (True, "seqx", "model_checking",
